@@ -120,11 +120,26 @@ def to_et(n):
     return e
 
 
-def write_world(d, index, files):
+ENCODINGS = ['utf-8', 'iso-8859-1', 'utf-16', 'utf-8']
+
+
+def write_world(d, index, files, unreadable=()):
+    """Doxygen trees as files.  The encoding varies per file (declared in the XML declaration, as any XML producer may do;
+    characters outside it become character references): the text a reader gets is the same.  Files listed in `unreadable`
+    are cut in the middle of a multi-byte character: unreadable XML, which the tool must treat like a missing file."""
     if index is not None:
         ET.ElementTree(to_et(index)).write(os.path.join(d, 'index.xml'), encoding='utf-8')
     for refid, t in files.items():
-        ET.ElementTree(to_et(t)).write(os.path.join(d, refid + '.xml'), encoding='utf-8')
+        enc = ENCODINGS[sum(map(ord, refid)) % len(ENCODINGS)]
+        path = os.path.join(d, refid + '.xml')
+        ET.ElementTree(to_et(t)).write(path, encoding=enc, xml_declaration=True)
+        if refid in unreadable:
+            data = ET.tostring(to_et(t), encoding='utf-8', xml_declaration=True)
+            cut = data.find('日'.encode('utf-8'))
+            cut = cut + 1 if cut >= 0 else max(1, len(data) // 2)
+            data = data[:cut] if cut > 0 and (data[cut - 1] & 0x80) else data[:len(data) // 2] + b'\xe6'
+            with open(path, 'wb') as f:
+                f.write(data)
 
 
 def impl_queries(d, queries):
@@ -189,9 +204,12 @@ def run(rep, tier, seed, replay=None, proof_ok=True):
             partial = k % 3 == 2
             index, files, queries = gen_world(r, partial)
             d = tempfile.mkdtemp(dir=root)
-            write_world(d, index, files)
+            unreadable = [rid for rid in files if partial and r.random() < 0.25]
+            write_world(d, index, files, unreadable)
             got = impl_queries(d, queries)
-            ans = model.ask('xmldoc', [[] if index is None else [index], [[rid, t] for rid, t in files.items()],
+            if unreadable:
+                rep.bump('class_files_cut_inside_a_character', len(unreadable))
+            ans = model.ask('xmldoc', [[] if index is None else [index], [[rid, t] for rid, t in files.items() if rid not in unreadable],
                                        [[c, m, list(a)] for c, m, a in queries]])
             shutil.rmtree(d, ignore_errors=True)
             rep.hit(common.sha(repr((index, files, queries))), True, n=len(queries))
